@@ -316,6 +316,32 @@ def cli_subset(ctx, dec, b, spec, scratch, tag):
     got = td_of(m2).decoded_values_all_subsets
     if len(got) != len(want) or any(len(a) != len(c) for a, c in zip(want, got)):
         ctx.violate('cli-subset-differs', 'CLI subset %r wrote %d subsets' % (I, len(got)), dict(spec, indices=I))
+        return
+    # the index list as a shell hands it over when it is quoted: blanks around the numbers, another order, a repeat; and an index
+    # that is out of range (a negative one as well) is refused by the command as it is by subset()
+    ref = open(dst, 'rb').read()
+    for text in (', '.join(str(i) for i in I), ' ' + ','.join(str(i) for i in reversed(I)), ' , '.join(str(i) for i in I + [I[0]]) + ' '):
+        os.remove(dst)
+        so, se, exc, code = run_cli(['subset', text, src, dst])
+        ctx.count('cli_subset_index_list_forms')
+        out = open(dst, 'rb').read() if os.path.exists(dst) else None
+        if exc is not None or se.strip() or out is None:
+            # (a form the command refuses is not judged ...)
+            ctx.count('cli_subset_index_list_form_refused')
+            continue
+        if out != ref:
+            ctx.violate('cli-subset-differs/index-list-form', 'pybufrkit subset %r writes another message than subset %r' % (text, ','.join(str(i) for i in I)),
+                        dict(spec, indices=I, index_list=text))
+            break
+    for text in ('0,-1', '0,%d' % n, '-1'):
+        if os.path.exists(dst):
+            os.remove(dst)
+        so, se, exc, code = run_cli(['subset', text, src, dst])
+        ctx.count('cli_subset_out_of_range_lists')
+        if exc is None and not se.strip() and os.path.exists(dst):
+            ctx.violate('cli-subset-accepts-out-of-range', 'pybufrkit subset %r on a message of %d subsets wrote a message without any error' % (text, n),
+                        dict(spec, index_list=text))
+            break
 
 
 def cli_subset_alt_tables(ctx, scratch):
